@@ -175,6 +175,7 @@ class Gen(object):
     def stmt(self, fn, ind, depth, inloop, infinally=False):
         t = self.t
         deep = depth >= self.cfg.max_depth
+        noleave = getattr(self, "noleave", 0) > 0
         # 0 trap/probe (simple), 1 with, 2 try, 3 if, 4 loop, 5 leave, 6 call, 7 assign/pass, 8 match
         w = [5, 6 if not deep else 0, 2 if not deep else 0, 2 if not deep else 0, 2 if not deep else 0, 1 if depth > 0 else 0, 2, 1, 1 if not deep else 0]
         if not self.on("try"):
@@ -183,7 +184,7 @@ class Gen(object):
             w[3] = 0
         if not self.on("loop"):
             w[4] = 0
-        if not self.on("leave"):
+        if not self.on("leave") or noleave:
             w[5] = 0
         if not self.on("call"):
             w[6] = 0
@@ -304,6 +305,19 @@ class Gen(object):
         nh = t.weighted([2, 3, 1])  # 0 handlers => finally mandatory
         if self.cfg.no_handlers:
             nh = 0
+        if nh and PY >= (3, 11) and self.on("try") and t.choose(6) == 1:
+            # except*: its body may not contain break / continue / return
+            self.emit(fn, ind, "except* W.E%d:" % (1 + t.choose(2)))
+            self.noleave = getattr(self, "noleave", 0) + 1
+            try:
+                self.block(fn, ind + 1, depth + 1, inloop)
+            finally:
+                self.noleave -= 1
+            nh = 0
+            if t.choose(3) == 1:
+                self.emit(fn, ind, "finally:")
+                self.block(fn, ind + 1, depth + 1, inloop, infinally=True)
+            return
         for h in range(nh):
             form = t.weighted([3, 2, 1, 1])
             if form == 0:
@@ -517,6 +531,9 @@ class Gen(object):
         for it in items:
             if it["mkind"] == "es":
                 self.es_population(fn, bind, it, depth)
+            if it.get("prebound") and t.choose(2) == 1:
+                # the local no longer names the manager: varname may not claim it does
+                self.emit(fn, bind, "%s = None" % it["prebound"])
         self.block(fn, bind, depth + 1, inloop)
         if passive:
             self.emit(fn, bind - 1, "finally:")
